@@ -121,6 +121,19 @@ def check_theorems(pid):
     return len(thms), discharged, sorted(set(axioms)), p.stdout[-2000:]
 
 
+def coqchk(pid):
+    """thorough tier: re-check Properties/<pid>.vo and everything it depends on with the independent checker;
+    returns (ok, summary)"""
+    p = sh('timeout 3000 coqchk -silent -o -Q . KV KV.Properties.%s' % pid, cwd=COQ, check=False, timeout=3100)
+    out = p.stdout
+    m = re.search(r'\* Axioms:\s*(.*?)\n\s*\n', out, flags=re.S)
+    ax = m.group(1).strip() if m else '?'
+    bad = [k for k in ('type-in-type', 'unsafe (co)fixpoints', 'positivity is assumed')
+           if not re.search(re.escape(k) + r':\s*<none>', out)]
+    ok = p.returncode == 0 and ax == '<none>' and not bad
+    return ok, 'coqchk -silent -o KV.Properties.%s: rc=%d axioms=%s%s' % (pid, p.returncode, ax, (' NOT-NONE: ' + ','.join(bad)) if bad else '')
+
+
 # --------------------------------------------------------------------------
 # running histories
 
